@@ -214,8 +214,20 @@ Price/fees can be:
             ));
         }
 
-        calculate(&transactions, year, self.fx_cache.as_ref(), &self.config)
-            .map_err(|e| Self::format_calculation_error(e, year))
+        // Decimal arithmetic panics on overflow (absurdly large or small literals). A panicking
+        // handler task would leave the request without any response, so turn it into an error.
+        let outcome = std::panic::catch_unwind(std::panic::AssertUnwindSafe(|| {
+            calculate(&transactions, year, self.fx_cache.as_ref(), &self.config)
+        }))
+        .map_err(|_| {
+            McpError::invalid_params(
+                "Calculation Error:\n\nArithmetic overflow: a quantity, price or amount is too \
+                 large or too small to be processed. Please check the transaction values.",
+                None,
+            )
+        })?;
+
+        outcome.map_err(|e| Self::format_calculation_error(e, year))
     }
 
     /// Format a calculation error with helpful context.
